@@ -399,6 +399,7 @@ class Check(PropertyCheck):
                 else:
                     exp[name], wires[name] = [], []
                 ops = ["reset"] + ["save " + w for w in wires[name]]
+            if not st["active"]: ops = ops + ["hkstart"]            # the addon model: a stream is opened
             st.update(cur=name, spec=spec, active=True)
             return ops
 
@@ -408,7 +409,7 @@ class Check(PropertyCheck):
                 if init[1] is not None:
                     st["filt"] = init[1]
                     tctx.configure(sa, save_stream_filter=init[1])
-                ops = open_file(tctx, sa, init[0], "start")
+                ops = ["hkinit"] + open_file(tctx, sa, init[0], "start")
                 check_all("start")
                 steps.append({"ev": "start " + init[0], "ops": ops, "len": len(content(st["cur"]))})
                 for ev in list(script) + [("stop",)]:
@@ -417,11 +418,12 @@ class Check(PropertyCheck):
                         f, hook = flows[ev[1]], ev[2]
                         will_save = st["active"] and hook in self.SAVE_HOOKS and matches(f) \
                             and not (hook in ("response", "error") and getattr(f, "websocket", None) is not None)
-                        ops = ["noop"]
+                        w = to_wire(f.get_state())
+                        # the model's transcription of the addon decides what this hook writes (tie: file length afterwards)
+                        ops = [f"hk {hook} {ev[1]} {int(getattr(f, 'websocket', None) is not None)} {int(matches(f))} {w}"]
                         if will_save:
                             seg_add(exp[st["cur"]], state_canon(f.get_state()))
-                            w = to_wire(f.get_state()); wires[st["cur"]].append(w)
-                            ops = ["save " + w]                 # the state handed to the writer by this hook
+                            wires[st["cur"]].append(w)
                         if st["active"] and hook in self.START_HOOKS and ev[1] not in in_flight:
                             in_flight.append(ev[1])
                         if st["active"] and hook in self.SAVE_HOOKS and ev[1] in in_flight \
@@ -461,7 +463,7 @@ class Check(PropertyCheck):
                         elif spec == "toggle": spec = st["spec"][1:] if st["spec"].startswith("+") else "+" + st["spec"]
                         ops = open_file(tctx, sa, spec, label)
                     else:
-                        ops = ["noop"]
+                        ops = ["hkdone -"]
                         if st["active"]:
                             pending = [flows[j] for j in in_flight if matches(flows[j])]
                             del in_flight[:]
@@ -480,7 +482,11 @@ class Check(PropertyCheck):
                             order += left
                             for c, f in order:
                                 wires[st["cur"]].append(to_wire(f.get_state()))
-                            ops = ["done " + (";".join(to_wire(f.get_state()) for _, f in order) or "-")]
+                            # candidates for the model's done(): the flows in the order in which the file shows them, then all others;
+                            # the model's own active set decides which of them are written
+                            rest_ = [f for f in flows if all(f is not g for _, g in order)]
+                            cands = [(flows.index(f), f) for _, f in order] + [(flows.index(f), f) for f in rest_]
+                            ops = ["hkdone " + (";".join(f"{j}:{int(matches(f))}:{to_wire(f.get_state())}" for j, f in cands) or "-")]
                             st["active"] = False
                     check_all(label)
                     steps.append({"ev": label, "ops": ops, "len": len(content(st["cur"]))})
